@@ -43,6 +43,7 @@ import Relic.Driver.Cosign
 import Relic.Driver.TsaX
 import Relic.Driver.Xar
 import Relic.Driver.CsVerify
+import Relic.Driver.Scd
 open Relic
 
 def dispatch (line : String) : String :=
@@ -96,6 +97,7 @@ def dispatch (line : String) : String :=
   | "CAT" :: rest => Relic.Driver.Cosign.handleCat rest
   | "TSX" :: rest => Relic.Driver.TsaX.handle rest
   | "XAR" :: rest => Relic.Driver.Xar.handle rest
+  | "SCD" :: rest => Relic.Driver.Scd.handle rest
   | _ => "bad-op"
 
 partial def loop (h : IO.FS.Stream) (out : IO.FS.Stream) : IO Unit := do
